@@ -435,6 +435,10 @@ class MultiSchemaPool(pool_mod.FixedPool):
         else:
             worker = await self._acquire_worker()
         try:
+            # The worker works on its last state in place: unless the call
+            # succeeds, what it is left with is not the state any client
+            # holds, so it must not be found by state_id again.
+            worker._last_pickled_state = None
             resp = await worker.call(
                 "compile_in_tx",
                 state_id,
